@@ -194,7 +194,23 @@ def run_config(case, dname, dtype, ren, sname, form):
             n += 1
             events.append(values_event("Inverse", "inverse_transform", ok, dec,
                                        lambda v: project(v, ren, sent)))
-    ok, out = _try(ExtLabelEncoder(classes=classes, missing_label=sent).fit_transform, y_in)
+    # half of the configurations: the encoder used for fit_transform has a past - it was constructed for another
+    # class list (one class more, else one less, of the same renaming), used once, and then re-configured with
+    # set_params; nothing fitted for the old configuration may survive
+    le2 = ExtLabelEncoder(classes=classes, missing_label=sent)
+    past = None
+    if (sum(cy["flat"]) + case["K"] + len(dname) + len(sname)) % 2 == 0:
+        names = list(RENAMINGS[ren])
+        other = names[:case["K"] + 1] if len(names) > case["K"] else names[:max(1, case["K"] - 1)]
+        if other != classes:
+            try:
+                old = ExtLabelEncoder(classes=other, missing_label=sent)
+                old.fit_transform(np.asarray(other, dtype=np.asarray(arr).dtype if dname != "object" else object))
+                old.set_params(classes=classes, missing_label=sent)
+                le2, past = old, other
+            except Exception:
+                pass
+    ok, out = _try(le2.fit_transform, y_in)
     n += 1
     events.append(values_event("FitTransform", "fit_transform", ok, out, _int_or_unmatched))
     trace = {"id": "labels/%s/K%d/%s/%s/%s/%s/%s" % (
@@ -205,7 +221,8 @@ def run_config(case, dname, dtype, ren, sname, form):
              "sent": skind, "dtype": dk, "form": "ndarray" if form == "ndarray" else "list",
              "events": events,
              "concrete": {"y": repr(y_in), "missing_label": repr(sent), "classes": repr(classes),
-                          "dtype": dname, "input_as": form}}
+                          "dtype": dname, "input_as": form,
+                          "fit_transform_encoder_configured_before_for_classes": repr(past)}}
     return trace, n
 
 
